@@ -175,6 +175,15 @@ func doDump(c *core.Ctx, what string) {
 			}
 			fmt.Printf("d%d %-5v %s   [%s] via %v\n", f.Depth, f.Truth, desc, c.PosStr(f.Cond.Pos()), f.Via)
 		}
+	case what == "fees":
+		groups := map[string][]string{}
+		for _, m := range rules.LiveModels(c, "dump") {
+			sig := rules.FeeSignatureString(m)
+			groups[sig] = append(groups[sig], m.H.TypeName)
+		}
+		for sig, hs := range groups {
+			fmt.Printf("%d handlers: %v\n    %s\n", len(hs), hs, strings.ReplaceAll(sig, " ; ", "\n    "))
+		}
 	case what == "fns":
 		for _, f := range c.AllFns {
 			fmt.Println(core.ShortFn(f))
